@@ -13,7 +13,7 @@ from .util import anchor_attrs
 from .util import const, fut, same_class, self_obj, text, who_may_call
 
 PROTO = "bellows.ezsp.protocol"
-VERSIONS = list(range(4, 15))
+from ..su import VERSIONS  # noqa: E402  (shared list, filled from EZSP._BY_VERSION)
 
 
 def vcls(ctx, v):
@@ -289,7 +289,7 @@ def r06_7(ctx):
     f = repo.func(f"{PROTO}:ProtocolHandler.__call__")
     ctx.fn(f)
     visited_call = set()
-    for v in (4, 8, 14):
+    for v in (VERSIONS[0], 8, VERSIONS[-1]):
         fields = init_handler(ctx, v)
         by_id = fields.get("COMMANDS_BY_ID")
         cmds = handler_commands(ctx, v)
